@@ -11,6 +11,7 @@ import ZorgVerif.Model.Sql
 import ZorgVerif.Model.Exec
 import ZorgVerif.Model.Saved
 import ZorgVerif.Model.Zo
+import ZorgVerif.Model.NoteText
 /-! Line protocol: one JSON request per line on stdin, one JSON answer per line on stdout. -/
 open Lean ZorgVerif
 
@@ -342,6 +343,28 @@ def handleZo (op : String) (j : Json) : Except String Json := do
     | .error .fuel => pure (Json.mkObj [("err", "fuel")])
   | _ => throw s!"unknown op {op}"
 
+def ntResult : Except NoteText.Err Str → Json
+  | .ok s => Json.mkObj [("ok", jstr s)]
+  | .error (.indexError w) => Json.mkObj [("err", "IndexError"), ("what", w)]
+
+def handleNt (op : String) (j : Json) : Except String Json := do
+  match op with
+  | "nt.addZid" => pure (ntResult (NoteText.addZidToLine (← strOf j "zid").toList (← strOf j "line").toList))
+  | "nt.stamp" => pure (ntResult (NoteText.addOrUpdateModifyDate (← strOf j "date").toList (← strOf j "line").toList))
+  | "nt.addZidBody" => pure (Json.mkObj [("ok", jstr (NoteText.addZidToBody (← strOf j "zid").toList (← strOf j "body").toList))])
+  | "nt.addNote" =>
+    let ls ← strListOf j "lines"
+    let ns ← strListOf j "note"
+    pure (Json.mkObj [("ok", Json.arr ((NoteText.addNote ls ns).map jstr).toArray)])
+  | "nt.deleteNote" =>
+    let ls ← strListOf j "lines"
+    let z ← strOf j "zid"
+    let n ← j.getObjValAs? Nat "n"
+    match NoteText.deleteNote ls z.toList n with
+    | some r => pure (Json.mkObj [("ok", Json.arr (r.map jstr).toArray)])
+    | none => pure (Json.mkObj [("none", true)])
+  | _ => throw s!"unknown op {op}"
+
 def handle (line : String) : Json :=
   match Json.parse line with
   | .error e => Json.mkObj [("driver_error", s!"parse: {e}")]
@@ -360,6 +383,7 @@ def handle (line : String) : Json :=
         else if op.startsWith "exec." then handleExec op j
         else if op.startsWith "saved." then handleSaved op j
         else if op.startsWith "zo." then handleZo op j
+        else if op.startsWith "nt." then handleNt op j
         else .error s!"unknown op {op}"
       match r with
       | .ok v => v
